@@ -8,12 +8,14 @@
        every table is bounded by the number of files of the output archive, and the output
        writer's runs by 2 * files + blocks parsed: a FileContent block adds at most ONE run
        whatever its length, although it is appended in CACHE-sized pieces. *)
+From MLA Require Import Limit.
 From MLA Require Import Base Stream Blocks Writer Reader Repair Total TotalRepair Mem MemSize MemSizeProofs.
 From Coq Require Import ZifyBool ZifyNat ZifyN.
 Open Scope N_scope.
 
 (* ---------- names delivered by the block parser are at most FNMAX bytes ---------- *)
 Section ParseName.
+  Context {LIM : Limit}.
   Variable FNMAX : N.
   Variables T_START T_CONTENT T_EOA T_EOF : N.
   Variable S : Stream.
@@ -112,6 +114,7 @@ Qed.
 
 (* ---------- linear extraction ---------- *)
 Section Linear.
+  Context {LIM : Limit}.
   Variable FNMAX : N.
   Variables T_START T_CONTENT T_EOA T_EOF : N.
   Variable S : Stream.
